@@ -312,12 +312,13 @@ fn cache_table(cache: &FxCache, curs: &[Currency]) -> BTreeMap<(String, i32, u32
     t
 }
 
-/// One rates file whose rows are every sequence of at most 3 rows over a 7-row menu (good, zero, negative and
+/// One rates file whose rows are every sequence of at most 3 rows over a 9-row menu (good, zero, negative and
 /// unparsable rates of two currencies, one currency possibly listed several times): a file with any non-positive or
 /// unparsable rate must be refused wherever that row stands; otherwise every currency listed once must be served at
 /// its rate (which of several positive rows of one currency wins is not part of the statement).
 fn row_sequences(ctx: &Ctx, acc: &mut Acc) {
-    let rows: [(&str, &str, bool); 7] = [("USD", "1.5", true), ("USD", "1.75", true), ("USD", "0", false), ("USD", "-1.3", false), ("USD", "abc", false), ("EUR", "1.25", true), ("EUR", "0.0", false)];
+    // (currency codes also in lower and mixed case: a row is a row of that currency however its code is spelled)
+    let rows: [(&str, &str, bool); 9] = [("USD", "1.5", true), ("USD", "1.75", true), ("USD", "0", false), ("USD", "-1.3", false), ("USD", "abc", false), ("EUR", "1.25", true), ("EUR", "0.0", false), ("usd", "1.6", true), ("Eur", "-2", false)];
     let mut seqs: Vec<Vec<usize>> = vec![];
     for a in 0..rows.len() {
         seqs.push(vec![a]);
@@ -353,7 +354,7 @@ fn row_sequences(ctx: &Ctx, acc: &mut Acc) {
                     return acc;
                 }
                 for (code, cur) in [("USD", Currency::USD), ("EUR", Currency::EUR)] {
-                    let listed: Vec<&str> = chosen.iter().filter(|(c, _)| *c == code).map(|(_, r)| *r).collect();
+                    let listed: Vec<&str> = chosen.iter().filter(|(c, _)| c.eq_ignore_ascii_case(code)).map(|(_, r)| *r).collect();
                     let got = cache.get(cur, 2024, 10).map(|e| e.rate_per_gbp);
                     let ok = match listed.len() {
                         0 => true,
